@@ -34,3 +34,18 @@ Section Spec.
       sumf (fun i => pair (vat xi (first + i - tau)) (vat xj (first + i))) count.
   End Corr.
 End Spec.
+
+(* the same for any value type with the operations the code uses: the "mean" is
+   constrain ((1/L) (x(t) + near(x(t), x(t-s)) + .. )) where near picks, for a periodic variable, the image of the older
+   value closest to x(t); the deviations are measured with the variable's own metric *)
+Section SpecV.
+  Context {T : Type} (O : NumOps T) {V : Type} (P : @vops T V) (dflt : V).
+  Definition xatV (xs : list V) (t : nat) : V := nth t xs dflt.
+  Definition win_sumV (xs : list V) (L s t : nat) : V :=
+    fold_left (vo_add P) (map (fun j => vo_near P (xatV xs t) (xatV xs (t - j * s))) (seq 1 (L - 1))) (xatV xs t).
+  Definition win_meanV (xs : list V) (L s t : nat) : V :=
+    vo_constrain P (vo_scale P (ndiv O (n1 O) (ofnat O L)) (win_sumV xs L s t)).
+  Definition win_varV (xs : list V) (L s t : nat) : T :=
+    let m := win_meanV xs L s t in
+    ndiv O (sumf O (fun j => vo_dist2 P (xatV xs (t - j * s)) m) L) (ofnat O (L - 1)).
+End SpecV.
